@@ -871,6 +871,7 @@ impl LdapConnAsync {
                         } else {
                             panic!("unmatched tag structure: {:?}", tag);
                         };
+                        let done = protoop.id == 5;
                         let (item, mut remove) = match protoop.id {
                             4 | 25 => (SearchItem::Entry(protoop), false),
                             5 => (SearchItem::Done(Tag::StructureTag(protoop).into()), true),
@@ -892,6 +893,11 @@ impl LdapConnAsync {
                         }
                         if remove {
                             self.searchmap.remove(&id);
+                        }
+                        if done {
+                            // The Search is over, its message ID can be reused.
+                            let mut msgmap = self.msgmap.lock().expect("msgmap mutex (search done)");
+                            msgmap.1.remove(&id);
                         }
                     } else if let Some(tx) = self.resultmap.remove(&id) {
                         #[cfg(ldap3_verif)]
